@@ -13,14 +13,14 @@ RULE = ("deterministic virtual-clock event loop; a real BaseClient (recording se
         "process_message; timeout in {none, 2.25, 4.25, 7.25} (never tying with the grid), polling in {off, delay 1/interval 1, delay "
         "2/interval 3}, condition kind {expect, initial, check} x event kind {value, state, value+state = a check that also reads the vector's state, where one "
         "message changes both, any = no element filter and default event type, where the "
-        "non-matching events are re-definitions raising value, state and definition events}. The complete grid is enumerated (quick: 6 "
+        "non-matching events are re-definitions raising value, state and definition events}. In every fifth run each non-matching event is preceded by the whole device being deleted (delProperty without a name) and defined again. The complete grid is enumerated (quick: 6 "
         "points, thorough: 7 points). Oracle: the wait returns the FIRST matching event object (identity, from a "
         "spy tapping trigger_event; the callback registry holds only what the waits registered) at that event's virtual instant, or raises at exactly the timeout instant - never both, never neither; getProperties "
         "polls happen exactly at delay + k*interval while waiting and never after completion; no callback stays registered. "
         "non-trivial = a run in which at least one event was injected; distinct = hash(pattern, timeout, polling, condition)")
 ASSUMPTIONS = ["exact ties between an event and the timeout instant are excluded by off-grid constants"]
 REQUIRED_EVENTS = ["runs", "waits_completed_by_event", "waits_timed_out", "waits_still_pending_without_timeout", "polls_observed",
-                   "batches_with_two_matches", "redefinitions_injected"]
+                   "batches_with_two_matches", "redefinitions_injected", "whole_device_deletions_during_a_wait"]
 EXHAUSTIVE_NOTE = "every assignment of the five slot kinds to every grid point x timeouts x polling x conditions (quick: 6 grid points; thorough: 7)"
 
 QUICK_SHARDS = 4
@@ -204,6 +204,7 @@ def run_one(ctx, case):
     injected = [0]
     redefs = [0]
     two_match_batches = [0]
+    whole_device_deletions = [0]
 
     async def main():
         feeders = [Feeder(c, k) for c, k in conds]
@@ -235,6 +236,16 @@ def run_one(ctx, case):
                 if feeder.cond == "expect":
                     seq = [True, False, True]      # two matching events need a change in between
             for match in seq:
+                if case.get("device_vanishes") and not match:
+                    # the server drops the WHOLE device (delProperty without a name) and defines it again before the next update
+                    for f in feeders:
+                        f.value, f.state = f.def_value, f.def_state
+                    injected[0] += 2
+                    redefs[0] += 1
+                    current_message_state[0] = feeder.def_state
+                    client.process_message(M.DelProperty(device="D"))
+                    client.process_message(feeder.definition())
+                    whole_device_deletions[0] += 1
                 msg = feeder.make(match)
                 if msg is None:
                     msg = feeder.make(not match) if False else None
@@ -274,6 +285,7 @@ def run_one(ctx, case):
     ctx.count("runs")
     ctx.count("batches_with_two_matches", two_match_batches[0])
     ctx.count("redefinitions_injected", redefs[0])
+    ctx.count("whole_device_deletions_during_a_wait", whole_device_deletions[0])
     # ---- oracle
     for rec in results:
         cond, kind = rec["cond"], rec["kind"]
@@ -376,7 +388,7 @@ def run(ctx):
                 if not ctx.thorough and (i % 2):
                     picks = picks[:1]
                 one_case(ctx, {"pattern": list(pattern), "timeout": timeout, "polling": list(polling) if polling else None,
-                               "conds": [list(p) for p in picks]})
+                               "conds": [list(p) for p in picks], "device_vanishes": i % 5 == 3})
                 if i % 1499 == 0:
                     ctx.sample({"pattern": list(pattern), "timeout": timeout, "polling": polling, "conditions": picks})
                 if ctx.enough():
